@@ -2,8 +2,10 @@
 from __future__ import annotations
 
 import ast
+from fractions import Fraction
 from typing import Dict, List, Optional, Set, Tuple
 
+from ..abseval import Cond, Const, Ctx, Evaluator, Inst, Scalar, State, S, SymObj, Undecided, leaves
 from ..cfg import CFG, Deps, Node, defs_of, uses_of
 from ..check import Variant
 from ..loader import AnalysisError, Func, Program, dotted, norm, parent
@@ -79,7 +81,7 @@ def taint(cfg: CFG, deps: Deps, sources: Set[str], exempt_tests: Set[int]) -> Tu
 
 def run(prog: Program, rep, thorough: bool) -> None:
     rep.rule('C11.R1', 'request parameters do not reach the integration state', 12)
-    rep.rule('C11.R2', 'range sample independent of filter mask and time step', 2)
+    rep.rule('C11.R2', 'range sample independent of filter mask and time step', 1)
     tc = prog.module(C.M_TC)
     F = IntegrateFacts(prog)
     rep.saw(F.func)
@@ -226,45 +228,106 @@ def run(prog: Program, rep, thorough: bool) -> None:
     # ---- R2 ------------------------------------------------------------------------------------
     sr = prog.func(C.M_TC, '_TrajectoryDataFilter.should_record')
     rep.saw(sr)
-    scfg = CFG(sr.node)
-    sdeps = Deps(scfg, sr.params)
-    me = sr.positional[0]
-    sources = {f'{me}.filter', f'{me}.time_step', f'{me}.time_of_last_record'}
-    _l, swhy = taint(scfg, sdeps, sources, exempt_tests=set())
-    data_defs = [n for n in scfg.nodes if n.ast is not None and n.kind == 'stmt' and 'data' in defs_of(n)
-                 and not (isinstance(n.ast, ast.Assign) and isinstance(n.ast.value, ast.Constant))]
-    if not data_defs:
-        raise AnalysisError('should_record: no definition of the recorded sample found')
-    scd = scfg.control_dependence()
-    n_range = 0
-    for n in data_defs:
-        # is this definition tainted (data: its uses; control: its guards)?
-        guards = _all_guards(scfg, scd, n.id)
-        dep_src = any(u in sources or any(u.startswith(s) for s in sources) for u in sdeps.uses[n.id])
-        ctrl_src = [g for g in guards if any(u in sources for u in sdeps.uses[g])]
-        if not dep_src and not ctrl_src:
-            n_range += 1
-            rep.ok('C11.R2', tc.where(n.ast), f'sample definition `{n.text()[:50]}` does not depend on the filter mask or the time step')
-            continue
-        # must be guarded by `data is None`
-        guarded = False
-        for g in guards:
-            gt = scfg.nodes[g]
-            labs = {lab for t, lab in scd[n.id] if t == g} or {'T'}
-            for c in ast.walk(gt.ast):
-                if isinstance(c, ast.Compare) and norm(c) == 'data is None' and 'T' in labs:
-                    guarded = True
-        if guarded:
-            rep.ok('C11.R2', tc.where(n.ast), f'definition depending on the filter mask is guarded by `data is None`')
-        else:
-            rep.fail('C11.R2', tc.path, n.line, sr.qualname, f'data-def:{n.line - sr.node.lineno}',
-                     f'`{n.text()[:60]}` depends on the filter mask / time step and is not guarded by `data is None`: a '
-                     f'range row changes when extra data or a time step is requested')
-    if n_range == 0:
-        rep.fail('C11.R2', tc.path, sr.node.lineno, sr.qualname, 'no-range-def',
-                 'no definition of the recorded sample is independent of the filter mask and the time step')
+    check_range_sample_independent(prog, rep, sr, 'C11.R2')
     rep.rule('C11.R3', 'the recording schedule does not depend on the filter mask', 3)
     check_schedule(prog, rep, 'C11.R3')
+
+
+class _LoopEnv(dict):
+    """Sample point: a record distance that a loop may have advanced (havocked by engine D: `...@loopN`) stays where it
+    was, because at the sample points no further whole step fits."""
+
+    def __missing__(self, key):
+        if '@loop' in key and 'next_record_distance' in key:
+            return self['nrd']
+        raise KeyError(key)
+
+
+def check_range_sample_independent(prog: Program, rep, sr, rule: str) -> None:
+    """Non-interference by evaluation: should_record is evaluated for several requests (filter masks with and without
+    the event bits, with and without a time step, events pending or not) on one symbolic sample, and the outcomes are
+    compared at numeric sample points where a range row is due (one and several steps beyond the record distance):
+    the sample handed back - time, position, velocity, Mach - must be the same for every request, and must lie at the
+    record distance."""
+    from .c15 import _flags, _mk_filter
+    from .c16 import reachable_leaves, value_at
+    tc = prog.module(C.M_TC)
+    flags = _flags(prog, Evaluator(prog))
+    R, ALL_ = flags['RANGE'], flags['ALL']
+    requests = [('plain range card', R, 0.0, 0), ('extra data', ALL_, 0.0, 0), ('time step', R, 0.5, 0),
+                ('extra data and time step', ALL_, 0.25, 0), ('extra data, a crossing pending', ALL_, 0.0, flags['ZERO_DOWN']),
+                ('Mach rows, a crossing pending', R | flags['MACH'], 0.0, flags['MACH'])]
+    geometries = [('the sample just beyond the record distance', {'qx': 25.0, 'px': 15.0}),
+                  ('the sample exactly at the record distance', {'qx': 20.0, 'px': 15.0})]
+    base_env = {'qy': 3.0, 'qz': 0.125, 'py': 2.0, 'pz': 0.0, 'nrd': 20.0, 'rs': 10.0, 'tm': 1.0, 'pt': 0.875, 'am': 1100.0,
+                'pmach': 1110.0, 'ux': 2000.0, 'uy': 10.0, 'uz': 1.0, 'pvx': 2010.0, 'pvy': 12.0, 'pvz': 1.5, 'tlr': 0.25,
+                'pvm': 1.9, 'L': 0.0}
+    outcomes: Dict[str, Dict[str, tuple]] = {}
+    n_eval = 0
+    for label, mask, ts, pending in requests:
+        ev = Evaluator(prog)
+        st = State()
+        flt = _mk_filter(ev, st, prog, filter=Scalar(mask), time_step=Scalar(Fraction(str(ts))), current_flag=Scalar(pending))
+        pos = C.mk_vec(ev, st, prog, 'qx', 'qy', 'qz')
+        vel = C.mk_vec(ev, st, prog, 'ux', 'uy', 'uz')
+        try:
+            tree, st = ev.run_func(sr, {sr.positional[0]: flt, sr.positional[1]: pos, sr.positional[2]: vel,
+                                        sr.positional[3]: S('am'), sr.positional[4]: S('tm')}, st)
+        except Undecided as exc:
+            raise AnalysisError(f'should_record ({label}): {exc}') from exc
+        loop_syms = set()
+        for path_, lf_ in leaves(tree):
+            for t_, _pol in path_:
+                if t_.rf is not None:
+                    loop_syms |= {x for x in t_.rf.symbols() if '@loop' in x}
+        for gname, genv in geometries:
+            env = _LoopEnv(base_env)
+            env.update(genv)
+            lfs = [lf_ for lf_ in reachable_leaves(tree, env) if lf_.kind != 'raise']
+            sigs = set()
+            for lf0 in lfs:
+                sig = None
+                if lf0.kind == 'return':
+                    v = value_at(lf0.value, env)
+                    if isinstance(v, Inst):
+                        h = lf0.state.heap
+                        d = h[v.oid]
+                        vals = []
+                        try:
+                            for fld in ('time', 'mach'):
+                                vals.append(round(float(value_at(d[fld], env).rf.evalf(env)), 9))
+                            for fld in ('position', 'velocity'):
+                                o = value_at(d[fld], env)
+                                vals += [round(float(value_at(h[o.oid][c_], env).rf.evalf(env)), 9) for c_ in 'xyz']
+                            sig = tuple(vals)
+                        except (KeyError, AttributeError, ValueError, ZeroDivisionError, TypeError):
+                            sig = None
+                    elif isinstance(v, Const) and v.value is None:
+                        sig = ('no sample',)
+                sigs.add(sig)
+            sig = next(iter(sigs)) if len(sigs) == 1 else None
+            n_eval += 1
+            outcomes.setdefault(gname, {})[label] = sig
+    problems = []
+    for gname, per in outcomes.items():
+        ref_label = requests[0][0]
+        ref = per[ref_label]
+        if ref is None or any(v is None for v in per.values()):
+            raise AnalysisError(f'should_record: the outcome at the sample point ({gname}) is not one concrete sample for '
+                                f'{[k for k, v in per.items() if v is None]}')
+        if ref == ('no sample',) or abs(ref[2] - 20.0) > 1e-9:
+            problems.append(f'{gname}: the plain range card gets {"no row" if ref == ("no sample",) else f"a row at x = {ref[2]}"} '
+                            f'instead of one at the record distance 20')
+        for label, sig in per.items():
+            if sig != ref:
+                what = 'no sample' if sig == ('no sample',) else f'(t, Mach, x, y, z, ...) = {sig[:5]}'
+                problems.append(f'{gname}: with {label} the range row is {what}, with a plain range card it is {ref[:5]}')
+    if problems:
+        rep.fail(rule, tc.path, sr.node.lineno, sr.qualname, 'range-sample', '; '.join(problems[:2]) +
+                 ': a range row changes when extra data or a time step is requested')
+    else:
+        rep.ok(rule, sr.where, f'the sample of a due range row is the same for {len(requests)} requests (masks, time steps, pending '
+               f'events) at {len(geometries)} sample geometries, and lies at the record distance')
 
 
 SCHEDULE = ('next_record_distance', 'time_of_last_record')
